@@ -104,4 +104,18 @@ def blockSigOk {α} (ty : α → Nat) (batched : Nat → Bool) (verify1 : α →
     (items : List α) : Bool :=
   (blockTasks ty batched cores items).all (taskOk verify1)
 
+/-- One signature job on a pool: the submitted tasks, the tasks that ran, the reported verdict. -/
+structure JobObs (α : Type) where
+  tasks : List (List α)
+  executed : List (List α)
+  err : Bool
+
+/-- Contract of `workers.Workers` for several jobs created on the SAME pool, in any order of
+creation, submission and completion (blocks whose `Execute` returned early while their signature
+job was still running, the next block's job already created, …): verdicts are *per job* — each
+job's error is determined by its own executed tasks only (C26 `jobs_sequential` +
+`error_iff_some_failed`); no error leaks into, or is wiped by, another job. -/
+def PoolRun {α} (verify1 : α → Bool) (jobs : List (JobObs α)) : Prop :=
+  ∀ j ∈ jobs, JobRun verify1 j.tasks j.executed j.err
+
 end HyperModel.AuthBatch
